@@ -24,7 +24,7 @@ static const char *const TARGETS[] = { "serial queue", "concurrent queue", "glob
 
 static dispatch_source_t g_src;
 static const script *g_s;
-static int g_type, g_seen_sentinel, g_first = 1;
+static int g_type, g_seen_sentinel, g_first = 1, g_reent_done;
 static unsigned long g_sum, g_or;
 enum { EV_MERGE_CALL = EV_USER, EV_MERGE_RET, EV_DELIVER };
 
@@ -41,6 +41,7 @@ static void handler(void *ctx)
 		vx_ev(EV_MERGE_CALL, 99, 32);
 		dispatch_source_merge_data(g_src, 32);
 		vx_ev(EV_MERGE_RET, 99, 32);
+		g_reent_done = 1;
 	}
 	vx_point();
 	vx_ev(EV_END, HANDLER, 0);
@@ -67,7 +68,7 @@ static void run(int v)
 {
 	g_type = v % 3; g_s = &SCRIPTS[v / 9];
 	int tk = (v / 3) % 3;
-	g_sum = g_or = 0; g_seen_sentinel = 0; g_first = 1;
+	g_sum = g_or = 0; g_seen_sentinel = 0; g_first = 1; g_reent_done = 0;
 	vx_set_horizon(12ull * 1000000000ull);
 	dispatch_queue_t q = tk == 0 ? dispatch_queue_create("vx.src", NULL) :
 			tk == 1 ? dispatch_queue_create("vx.src", DISPATCH_QUEUE_CONCURRENT) : dispatch_get_global_queue(0, 0);
@@ -83,6 +84,11 @@ static void run(int v)
 	merger((void *)0);
 	for (int t = 1; t < g_s->nthr; t++) vx_join(th[t]);
 	if (g_s->suspended) dispatch_resume(g_src);
+	if (g_s->reentrant) {
+		// the sentinel must be the strictly last merge: wait for the handler's own merge first
+		int *c[2] = { &g_reent_done, (int *)(intptr_t)1 };
+		vx_wait_until(pred_int_ge, c);
+	}
 	vx_ev(EV_MERGE_CALL, 90, SENTINEL);
 	dispatch_source_merge_data(g_src, SENTINEL);
 	vx_ev(EV_MERGE_RET, 90, SENTINEL);
